@@ -360,11 +360,12 @@ def ctx : Ctx := {{
             f = dict(p.split("=", 1) for p in line.split()[1:] if "=" in p and not p.startswith("#"))
             key = f.get("key", "")
             kv = dict(p.split("=", 1) for p in key.split(";") if "=" in p)
-            if "def" in kv and "rule" in kv and ":" in kv["def"]:
+            rule = kv.get("rule") or kv.get("class")
+            if "def" in kv and rule and ":" in kv["def"]:
                 m, d = kv["def"].split(":", 1)
                 mm = {"GET": ".get", "SET": ".set", "POLL": ".poll"}.get(m)
                 if mm:
-                    ex.append(f"({mm}, {nm(d)}, {nm(kv['rule'])})")
+                    ex.append(f"({mm}, {nm(d)}, {nm(rule)})")
     chunked("exempt", "List (Mode × Name × Name)", list(dict.fromkeys(ex)), out)
     # config-database key ids named by a known finding (`key=key=0x…;class=…`)
     exk = []
